@@ -1163,12 +1163,7 @@ func pickBestVisibleNamespace(ps *PushContext, byNamespace map[string]*Service, 
 	var currentBestService *Service
 	for _, svc := range byNamespace {
 		if ps.IsServiceVisible(svc, configNamespace) {
-			// if we have a visible kube service, use it
-			if svc.Attributes.ServiceRegistry == provider.Kubernetes {
-				return svc.NamespacedName().Namespace
-			}
-			// if this is the first visible service, or it's older than our current best, then it is the new best that we have seen
-			if currentBestService == nil || svc.CreationTime.Before(currentBestService.CreationTime) {
+			if currentBestService == nil || betterVisibleService(svc, currentBestService) {
 				currentBestService = svc
 			}
 		}
@@ -1177,4 +1172,21 @@ func pickBestVisibleNamespace(ps *PushContext, byNamespace map[string]*Service, 
 		return currentBestService.NamespacedName().Namespace
 	}
 	return ""
+}
+
+// betterVisibleService reports whether a is a better pick than b: a Kubernetes service beats any other service,
+// an older non-Kubernetes service beats a newer one. byNamespace is a map, so what remains equal must not be left
+// to iteration order (the pick would change from one push to the next): the alphabetically first namespace wins.
+func betterVisibleService(a, b *Service) bool {
+	aKube := a.Attributes.ServiceRegistry == provider.Kubernetes
+	bKube := b.Attributes.ServiceRegistry == provider.Kubernetes
+	if aKube != bKube {
+		return aKube
+	}
+	if !aKube {
+		if r := a.CreationTime.Compare(b.CreationTime); r != 0 {
+			return r < 0
+		}
+	}
+	return a.NamespacedName().Namespace < b.NamespacedName().Namespace
 }
